@@ -9,5 +9,5 @@ PROP = "C05"
 
 
 def run(tier, seed):
-    return speccheck.run(PROP, tier, seed, ["window", "window", "rowlevel", "subquery", "window", "general", "tall"], 300, 10000, also=("C01", "C08"),
+    return speccheck.run(PROP, tier, seed, ["window", "window", "rowlevel", "subquery", "window", "general", "tall", "scen_window_nulls"], 300, 10000, also=("C01", "C08"),
                          assumptions=["window functions are generated with a total arrange= order (section 4 of DESIGN.md: results under ties are unspecified)", "Polars rank-based emulation of descending / nulls_last inside over() is covered by comparison, not by a theorem"])
